@@ -11,8 +11,11 @@ coercion -> resolvers:
                    at every offset, and (thorough) every single-character deletion / insertion
   payload faults   variable payloads from C07's value alphabet (wrong kinds included), payload shapes
   selection faults operation name none / right / wrong / empty on anonymous, single and multi-op documents
-  resolver faults  at every executed field of 7 documents: ResolverError with / without extensions, a
-                   ResolverError subclass, null (nullable and non-null positions), null list items; the same
+  resolver faults  at every executed field of 7 documents: ResolverError with / without extensions (plain
+                   dict with nested values, MappingProxyType, ChainMap, OrderedDict, custom Mapping, empty
+                   mapping), a ResolverError subclass, errors that already carry a foreign path / foreign
+                   nodes, an error re-raised from a delegated sub-request, ONE exception instance raised by
+                   several fields, null (nullable and non-null positions), null list items; the same
                    fault at every field of one name; pairs of faults (thorough)
   return faults    finite float, nan, inf, -inf, huge int, bytes, set at leaf fields of each built-in scalar
 
@@ -130,6 +133,54 @@ def _behave(ctx, info, args):
 
         log.append([path, ftype, "raised", "ext"])
         raise CustomError("boom", extensions=EXT)
+    if isinstance(fault, str) and fault.startswith("err-ext-"):
+        # resolver-supplied extensions that are a Mapping but not a plain dict
+        import collections
+        import collections.abc
+        import types
+
+        class CustomMapping(collections.abc.Mapping):
+            def __init__(self, d):
+                self._d = d
+
+            def __getitem__(self, k):
+                return self._d[k]
+
+            def __iter__(self):
+                return iter(self._d)
+
+            def __len__(self):
+                return len(self._d)
+
+        ext = {
+            "err-ext-proxy": lambda: types.MappingProxyType(dict(EXT)),
+            "err-ext-chain": lambda: collections.ChainMap({"code": EXT["code"]}, {"nested": EXT["nested"]}),
+            "err-ext-ordered": lambda: collections.OrderedDict(sorted(EXT.items(), reverse=True)),
+            "err-ext-custom": lambda: CustomMapping(dict(EXT)),
+            "err-ext-empty": lambda: types.MappingProxyType({}),
+        }[fault]()
+        log.append([path, ftype, "raised", "ext-empty" if fault == "err-ext-empty" else "ext"])
+        raise ResolverError("boom", extensions=ext)
+    if fault == "err-path":
+        # an error that already carries a (foreign) path: the field's path must win
+        log.append([path, ftype, "raised", None])
+        raise ResolverError("boom", path=["elsewhere", 0])
+    if fault == "err-nodes":
+        # an error that already carries (foreign) nodes: only its path is checked (the library keeps
+        # user-supplied nodes, so the location is the user's business)
+        log.append([path, ftype, "raised", "foreign-nodes"])
+        raise ResolverError("boom", nodes=[info._context.document.definitions[0]])
+    if fault == "err-reraise":
+        # raised by a delegated sub-request with its own path, caught and re-raised by this resolver
+        log.append([path, ftype, "raised", None])
+        try:
+            raise ResolverError("boom", path=["delegated", "q", 1])
+        except ResolverError:
+            raise
+    if fault == "err-shared":
+        # ONE exception instance raised by every field that has this fault
+        log.append([path, ftype, "raised", None])
+        raise ctx.setdefault("shared_error", ResolverError("boom"))
     if fault == "null":
         log.append([path, ftype, "null", None])
         return None
@@ -319,15 +370,16 @@ def _norm(o):
 
 
 def expected_error_paths(log):
-    """paths at which the log says an error must be reported, with whether extensions are expected"""
+    """paths at which the log says an error must be reported, with the log's remark
+    (None | "ext": EXT expected | "ext-empty": no or empty extensions | "foreign-nodes")"""
     out = []
     for path, ftype, what, extra in log:
         if what == "raised":
-            out.append((list(path), extra == "ext"))
+            out.append((list(path), extra))
         elif what == "null" and ftype.endswith("!"):
-            out.append((list(path), False))
+            out.append((list(path), None))
         elif what == "null-item" and "!]" in ftype:
-            out.append((list(path) + [1], False))
+            out.append((list(path) + [1], None))
     return out
 
 
@@ -476,11 +528,12 @@ def check_result(text, stage, res, log, plan):
                     out.append(("error-without-fault", "expected error paths %s, reported %s" % (exp_keys, got_keys)))
                 else:
                     out.append(("error-multiplicity", "expected error paths %s, reported %s" % (exp_keys, got_keys)))
+            foreign = {json.dumps(p) for p, extra in exp if extra == "foreign-nodes"}
             for p, err in got_paths:
                 # a field error is located at the field it is about: the text at the reported
                 # position starts with the response key (alias or field name) of the path
                 key = [x for x in p if isinstance(x, str)][-1]
-                for loc in err.get("locations") or []:
+                for loc in [] if json.dumps(p) in foreign else (err.get("locations") or []):
                     if isinstance(loc, dict) and _is_int(loc.get("line")) and _is_int(loc.get("column")):
                         off = _offset(text, loc["line"], loc["column"])
                         if off is not None and not re.match(re.escape(key) + r"(?![_0-9A-Za-z])", text[off:]):
@@ -493,9 +546,12 @@ def check_result(text, stage, res, log, plan):
             for p, ext in exp:
                 for q, err in got_paths:
                     if q == p:
-                        if ext and _norm(err.get("extensions")) != _norm(EXT):
+                        got_ext = err.get("extensions")
+                        if ext == "ext" and not (isinstance(got_ext, dict) and _norm(got_ext) == _norm(EXT)):
                             out.append(("extensions-not-passed-through", repr(err)[:200]))
-                        if not ext and "extensions" in err:
+                        elif ext == "ext-empty" and not ("extensions" not in err or got_ext == {}):
+                            out.append(("extensions-not-passed-through", "empty mapping became %r" % (got_ext,)))
+                        elif ext in (None, "foreign-nodes") and "extensions" in err:
                             out.append(("extensions-invented", repr(err)[:200]))
             if errors and not got_paths and not exp:
                 out.append(("execution-error-without-path", repr(errors)[:200]))
@@ -531,6 +587,18 @@ def selftest():
     assert probs("{ a }", "execute", GraphQLResult(data={"b": None}, errors=[e]), [[["a"], "Int", "raised", None]]) == ["path-not-in-data"]
     assert probs("{ a }", "execute", GraphQLResult(data={"a": None}, errors=[e]), [[["a"], "Int", "raised", "ext"]]) == ["extensions-not-passed-through"]
     assert probs("{ a }", "validate", GraphQLResult(data=None, errors=[e])) == ["data-present"]
+    import types as _types
+
+    ee = ResolverError("x", path=["a"], extensions=EXT)
+    assert probs("{ a }", "execute", GraphQLResult(data={"a": None}, errors=[ee]), [[["a"], "Int", "raised", "ext"]]) == []
+    assert probs("{ a }", "execute", GraphQLResult(data={"a": None}, errors=[ee]), [[["a"], "Int", "raised", "ext-empty"]]) == ["extensions-not-passed-through"]
+    assert probs("{ a }", "execute", GraphQLResult(data={"a": None}, errors=[e]), [[["a"], "Int", "raised", "ext-empty"]]) == []
+    lp = Loc2("m", 1, 3, ["a"])
+    lp.d["extensions"] = _types.MappingProxyType(dict(EXT))
+    assert "not-strict-json:TypeError" in probs("{ a }", "execute", GraphQLResult(data={"a": None}, errors=[lp]), [[["a"], "Int", "raised", "ext"]])
+    assert probs("{ a b }", "execute", GraphQLResult(data={"a": None, "b": None}, errors=[Loc2("m", 1, 5, ["b"]), Loc2("m", 1, 5, ["b"])]), [[["a"], "Int", "raised", None], [["b"], "Int", "raised", None]]) == ["null-without-error"]
+    assert probs("{ a }", "execute", GraphQLResult(data={"a": None}, errors=[Loc2("m", 1, 1, ["a"])]), [[["a"], "Int", "raised", "foreign-nodes"]]) == []
+    assert probs("{ a }", "execute", GraphQLResult(data={"a": None}, errors=[Loc2("m", 1, 1, ["a"])]), [[["a"], "Int", "raised", None]]) == ["location-not-at-field"]
     assert _offset("ab\ncd\r\nef\rgh", 2, 1) == 3 and _offset("ab\ncd\r\nef\rgh", 3, 2) == 8 and _offset("ab\ncd\r\nef\rgh", 4, 1) == 10
     assert _offset("ab", 2, 1) is None and _offset("ab", 1, 3) == 2 and _offset("ab", 1, 4) is None
     at = lambda line, col: Loc2("m", line, col, ["obj", "nn"])  # noqa
@@ -645,6 +713,10 @@ VALID_FOR_FAULTS = [
     "{ nnobj { items nn } ...G nnobj { items } }\nfragment G on Query { nnobj { nn ... on Obj { nn items } } }",
 ]
 MAX_PATHS = 16
+SINGLE_FAULTS = (
+    "err", "err-ext", "err-ext-proxy", "err-ext-chain", "err-ext-ordered", "err-ext-custom", "err-ext-empty",
+    "err-sub", "err-path", "err-nodes", "err-reraise", "null", "null-item",
+)
 
 VAR_DOCS = [
     ("query Q($x: Int = 3, $s: String) { echo(x: $x, s: $s) }", ["x", "s"]),
@@ -697,11 +769,11 @@ def cases(tier):
                 yield {"k": "vars", "text": doc, "variables": {name: v}}
     for doc in VALID_FOR_FAULTS:
         for k in range(MAX_PATHS):
-            for fault in ("err", "err-ext", "err-sub", "null", "null-item"):
+            for fault in SINGLE_FAULTS:
                 yield {"k": "fault", "text": doc, "at": [k], "faults": [fault]}
         for name in sorted({n for (_, n) in FIELD_TYPES}):
             if re.search(r"\b%s\b" % name, doc):
-                for fault in ("err", "err-sub", "null", "null-item"):
+                for fault in ("err", "err-sub", "err-shared", "err-path", "null", "null-item"):
                     yield {"k": "fault-all", "text": doc, "name": name, "fault": fault}
     for leaf, doc in LEAVES:
         for r in sorted(RETURNS):
@@ -725,8 +797,8 @@ def cases(tier):
         for doc in VALID_FOR_FAULTS:
             for k1 in range(MAX_PATHS):
                 for k2 in range(k1 + 1, MAX_PATHS):
-                    for f1 in ("err", "err-ext", "null", "null-item"):
-                        for f2 in ("err", "null", "null-item"):
+                    for f1 in ("err", "err-ext", "err-shared", "null", "null-item"):
+                        for f2 in ("err", "err-shared", "err-path", "null", "null-item"):
                             yield {"k": "fault", "text": doc, "at": [k1, k2], "faults": [f1, f2]}
 
 
@@ -766,10 +838,14 @@ def _classes(text, variables, opname, plan, configs, st, as_document=False):
     out = []
     base_stage = stage.split(":")[0]
     bare_cr = re.search(r"\r(?!\n)", text) is not None
+    shared = "err-shared" in [f for f in (plan or {}).values() if isinstance(f, str)]
     for p in sorted(per):
         cfgs = per[p]
         # locations are computed by counting LF only: texts with a bare CR are their own class
         name = p + "+bare-cr" if (p.startswith("location-") and bare_cr) else p
+        if shared and p.split(":")[0] in ("null-without-error", "error-without-fault", "error-multiplicity", "location-not-at-field", "extensions-invented"):
+            # ONE exception instance raised by several fields: its own class
+            name = p + "+shared-instance"
         suffix = "" if len(cfgs) == len(configs) else "@" + "+".join(cfgs)
         out.append(("%s/%s%s" % (stage, name, suffix), details[p]))
     if st is not None:
